@@ -4,7 +4,7 @@ from __future__ import annotations
 
 import ast
 
-from ..core import Repo, Report, call_name, norm, parents_map, walk_local
+from ..core import AnalysisError, Repo, Report, call_name, norm, parents_map, walk_local
 from ..dataflow import DefUse
 from ..sites import guard_chain
 from .util import ckey
@@ -163,8 +163,13 @@ def borrow(repo: Repo, rep: Report, from_prop: str, from_rule: str, new_rule: st
     rep.rule(new_rule, text + f" (the obligations of {from_rule}, which owns the mechanism)")
     sub = Report(from_prop, "borrow")
     _BORROWING = True
+    stopped = None
     try:
         importlib.import_module(f"fv.rules.{from_prop.lower()}").run(repo, sub, "quick")
+    except AnalysisError as e:
+        # the owning rule set lost an anchor somewhere (possibly in a rule that is not the borrowed one): what it established up to that point still counts,
+        # and this property's own rules go on; the borrowed obligations that were not reached are inconclusive, not a reason to stop everything
+        stopped = str(e)
     finally:
         _BORROWING = False
     n = 0
@@ -177,6 +182,9 @@ def borrow(repo: Repo, rep: Report, from_prop: str, from_rule: str, new_rule: st
                 rep.bad(new_rule, o.construct, o.detail, o.loc)
             else:
                 rep.unknown(new_rule, o.construct, o.detail, o.loc)
+    if stopped is not None and n < floor:
+        rep.unknown(new_rule, f"obligations of {from_rule}", f"the rule set of {from_prop} stopped before they were established: {stopped[:160]}", "")
+        return
     rep.floor(new_rule, f"obligations taken from {from_rule}", n, floor)
 
 
